@@ -515,7 +515,7 @@ harness!(c05q_values, split1(4, |k| with_shape([0, 2, 3, 6][k], QN9, QZ, |d| val
 
 //@ props: C05
 //@ timeout: 900
-//@ harness: c05q_name_s3, c05q_name_s4, c05q_name_s8, c05q_name_other, c05q_keys
+//@ harness: c05q_name_s3, c05q_name_s4, c05q_name_s8, c05q_name_s9, c05q_name_other, c05q_keys
 //@ desc: quick tier: get_by_name (symbolic name of length 0/1/2, symbolic ignore_case) on {k:n2,kk:s1}, {"":n9,k:[null]}, {a:{j:n2},b:s1,cc:null} and non-objects; object_keys/object_each on the same objects
 //@ fns: get_by_name, get_jentry_by_name, extract_by_jentry, object_keys, object_each
 //@ bounds: <= 3 members, keys and names <= 2 bytes
@@ -523,6 +523,7 @@ harness!(c05q_values, split1(4, |k| with_shape([0, 2, 3, 6][k], QN9, QZ, |d| val
 harness!(c05q_name_s3, split1(3, |l| with_shape(3, QX, QY, |d| by_name(d, l))));
 harness!(c05q_name_s4, split1(2, |l| with_shape(4, QN9, QZ, |d| by_name(d, l))));
 harness!(c05q_name_s8, split1(2, |l| with_shape(8, QX, QY, |d| by_name(d, 1 + l))));
+harness!(c05q_name_s9, split1(2, |l| with_shape(9, QX, QY, |d| by_name(d, 1 + l))));
 harness!(c05q_name_other, split1(4, |k| with_shape(if k == 0 { 0 } else { 4 + k }, QX, QY, |d| by_name(d, 1))));
 harness!(c05q_keys, split1(4, |k| with_shape([3, 4, 8, 0][k], QX, QZ, |d| keys_each(d))));
 
@@ -539,12 +540,13 @@ harness!(c05q_views_other, split1(5, |i| if i < 3 { with_shape(5, [(K_NULL, 0), 
 
 //@ props: C05
 //@ timeout: 900
-//@ harness: c05q_exists, c05q_traverse
-//@ desc: quick tier: exists_all_keys / exists_any_keys with two symbolic keys on {k:n2,kk:s1}, [s1,n2,s1'], a scalar and []; traverse_check_string with a symbolic 1-byte needle on [n2,s1,s1'], [null,{k:s1},n2], {"":s1,k:[n2]}, {a:{j:s1},b:n2,cc:null}
+//@ harness: c05q_exists, c05q_exists_nonstring, c05q_traverse
+//@ desc: quick tier: exists_all_keys / exists_any_keys with two symbolic keys on {k:n2,kk:s1}, [s1,n2,s1'], a scalar and []; on [n2,null,s1] with keys of 2 and 0 bytes (the widths of the number and null payloads: non-string elements never match); traverse_check_string with a symbolic 1-byte needle on [n2,s1,s1'], [null,{k:s1},n2], {"":s1,k:[n2]}, {a:{j:s1},b:n2,cc:null}
 //@ fns: exists_all_keys, exists_any_keys, exists_jsonb_key, traverse_check_string
 //@ bounds: <= 3 members/elements, depth 2
 //@ stubs: parse_value -> panic | drop_in_place -> no-op
 harness!(c05q_exists, split1(4, |k| with_shape([3, 0, 5, 6][k], if k == 1 { QY } else { QX }, if k == 1 { QX } else { QY }, |d| exists(d, 1, if k == 0 { 2 } else { 1 }))));
+harness!(c05q_exists_nonstring, with_shape(0, (K_NUM, 2), (K_NULL, 0), |d| exists(d, 2, 0)));
 harness!(c05q_traverse, split1(4, |k| with_shape([0, 2, 4, 8][k], if k == 0 { QX } else { QY }, if k == 1 { QY } else { QX }, |d| traverse(d, 1))));
 
 //@ props: C05
